@@ -352,6 +352,13 @@ func genC15(seed uint64, index int, tier string) *run.Plan {
 	if g.Intn(10) == 0 {
 		p.Faults = append(p.Faults, run.Fault{Kind: "poll-err-all"})
 	}
+	if g.Intn(4) == 0 {
+		// the same Wallet object sends again after the account changed underneath it (destroyed, re-deployed,
+		// or simply further along): nothing remembered from the first send may leak into the second message
+		p.P["second"] = 1
+		p.P["state2"] = g.Intn(3) // none uninit active
+		p.P["seqno2"] = []int{0, 1, 2, 5, 300, int(g.Next() % (1 << 32))}[g.Intn(6)]
+	}
 	return p
 }
 
@@ -513,6 +520,9 @@ func execC15(t *testing.T, w *core.World, p *run.Plan, r *run.Result) {
 	})
 	horizon := 2*W + 30*time.Second
 	w.Run(func() bool { return out.done }, 100000, horizon)
+	if p.Get("second", 0) == 1 && out.done && out.panicked == nil && chain.state != "frozen" && fam != "hl2" {
+		defer c15second(w, p, &wl, chain, id, fam, want)
+	}
 	r.Nontrivial = chain.stateCalls > 0
 	sentSeqno := uint32(0)
 	if chain.state == "active" {
@@ -734,6 +744,103 @@ func execC15(t *testing.T, w *core.World, p *run.Plan, r *run.Result) {
 		}
 	}
 	w.Visit(hash64(fmt.Sprintf("wait|%s|%s|%s|%v|%d", tag, chain.state, adv, errAfterAdvance, min(len(chain.polls), 12))))
+}
+
+// c15second sends once more through the same wallet after the model's account changed, and checks destination,
+// state-init and seqno of the second message.
+func c15second(w *core.World, p *run.Plan, wl *wallet.Wallet, chain *chainsim, id c15id, fam string, want ton.AccountID) {
+	chain.mu.Lock()
+	chain.state = []string{"none", "uninit", "active"}[p.Get("state2", 0)%3]
+	chain.seqno = uint32(p.Get("seqno2", 0))
+	chain.dataCell = toLibCell(id.dataCell(chain.seqno))
+	chain.includeAt = -1
+	before := len(chain.sends)
+	chain.mu.Unlock()
+	done := false
+	var err error
+	var pn any
+	w.At(0, "second SendV2", func() {
+		go func() {
+			w.Tag("sender-2")
+			defer func() {
+				if x := recover(); x != nil {
+					pn = x
+				}
+				done = true
+			}()
+			dst := ton.AccountID{Workchain: 0}
+			_, err = wl.SendV2(context.Background(), 0, wallet.SimpleTransfer{Amount: 1, Address: dst})
+		}()
+	})
+	w.Run(func() bool { return done }, w.Steps+10000, w.Now()+60*time.Second)
+	cls := func(o string) string { return "C15." + o + "|" + fam }
+	if pn != nil {
+		w.Violate("C15.panic", cls("panic"), fmt.Sprintf("second SendV2 panicked: %v", pn))
+		return
+	}
+	if !done || p.Get("state_err", 0) == 1 || p.Get("send_err", 0) == 1 {
+		return
+	}
+	chain.mu.Lock()
+	defer chain.mu.Unlock()
+	if err != nil || len(chain.sends) != before+1 {
+		w.Violate("C15.P", cls("P-second-send"), fmt.Sprintf("second send: err=%v, messages captured=%d", err, len(chain.sends)-before))
+		return
+	}
+	cells, e := boc.DeserializeBoc(chain.sends[len(chain.sends)-1])
+	if e != nil || len(cells) != 1 {
+		w.Violate("C15.P", cls("P-boc"), "second message is not a single-root BOC")
+		return
+	}
+	m := fromLib(cells[0])
+	rd := &bitReader{c: m}
+	rd.u(7)
+	rd.u(8)
+	rd.bytes(32)
+	if fee := rd.u(4); fee != 0 {
+		rd.u(int(fee) * 8)
+	}
+	hasInit := rd.u(1) == 1
+	if hasInit {
+		rd.u(1)
+		rd.nextRef()
+	}
+	var body *hcell
+	if rd.u(1) == 1 {
+		body = rd.nextRef()
+	} else {
+		body = &hcell{bits: m.bits[rd.pos:], refs: m.refs[rd.ref:]}
+	}
+	if rd.bad {
+		return
+	}
+	need := chain.state != "active"
+	if need != hasInit {
+		w.Violate("C15.P2", cls("P2-init"), fmt.Sprintf("second send, account %s: state-init attached=%v", chain.state, hasInit))
+	}
+	br := &bitReader{c: body}
+	var got uint64
+	switch fam {
+	case "v3", "v4":
+		br.u(512 + 64)
+		got = br.u(32)
+	case "v5beta":
+		br.u(32 + 80 + 32)
+		got = br.u(32)
+	case "v5r1":
+		br.u(32 + 32 + 32)
+		got = br.u(32)
+	default:
+		return
+	}
+	exp := uint32(0)
+	if chain.state == "active" {
+		exp = chain.seqno
+	}
+	if !br.bad && uint32(got) != exp {
+		w.Violate("C15.P3", cls("P3-seqno-second-send"), fmt.Sprintf("second send through the same wallet: account %s with stored seqno %d, message carries seqno %d", chain.state, chain.seqno, got))
+	}
+	w.Probe("second-send-checked")
 }
 
 func wl_max(v wallet.Version) int {
